@@ -127,7 +127,7 @@ def raw_fxp(F, signed, n_word, n_frac, codes, shape=None, **kw):
         k = size_of(shape)
         dt = 'int64' if signed else 'uint64'
         x = F.Fxp(None, signed, n_word, n_frac, **kw)
-        x.set_val(mk_array(F, dt, [(i % 2) if n_word > 1 or not signed else 0 for i in range(k)], shape), raw=True)
+        x.set_val(mk_array(F, dt, [0] * k, shape), raw=True)      # (zeros: whatever is remembered about them -- trailing zeros, magnitude -- is wrong for every other code)
         _use_everything(F, x)
         cl = list(codes)
         for i, ix in enumerate(F.np.ndindex(*shape)):
